@@ -32,7 +32,7 @@ def fetchTracksM (l : List Trk) (ids : List Nat) : List Trk × List Trk :=
   (l.filter (fun t => !ids.contains t.id), ids.filterMap (fun i => l.find? (fun t => t.id == i)))
 
 /-- `add_track` of a track with a new id appends -/
-def addTrackM (l : List Trk) (t : Trk) : Option (List Trk) := some (l ++ [t])
+def addTrackG (l : List Trk) (t : Trk) : Option (List Trk) := some (l ++ [t])
 
 theorem filterMap_self {β : Type} (g : β → Option β) : ∀ (l : List β), (∀ x ∈ l, g x = some x) → l.filterMap g = l
   | [], _ => rfl
@@ -96,7 +96,7 @@ theorem fold_add (f : Option (List Trk) → Trk → Option (List Trk)) (h0 : ∀
 
 /-- `get_main_store_wasted`: the expired tracks leave the main store -/
 theorem tie_gc_main_store_wasted (cfg : Cfg) (st : St) (l : List Trk) (hnd : (l.map (·.id)).Nodup) :
-    gc_main_store_wasted (findUsableM cfg) fetchTracksM addTrackM st l =
+    gc_main_store_wasted (findUsableM cfg) fetchTracksM addTrackG st l =
       (l.filter (fun t => !expired cfg st t), l.filter (expired cfg st)) := by
   unfold gc_main_store_wasted
   simp only []
@@ -105,7 +105,7 @@ theorem tie_gc_main_store_wasted (cfg : Cfg) (st : St) (l : List Trk) (hnd : (l.
 
 /-- **`auto_waste()` is the model's `collect`** -/
 theorem tie_gc_auto_waste (cfg : Cfg) (st : St) (hnd : (st.live.map (·.id)).Nodup) :
-    gc_auto_waste (findUsableM cfg) fetchTracksM addTrackM st st.live st.wasted =
+    gc_auto_waste (findUsableM cfg) fetchTracksM addTrackG st st.live st.wasted =
       some ((collect cfg st).live, (collect cfg st).wasted) := by
   unfold gc_auto_waste
   rw [tie_gc_main_store_wasted cfg st st.live hnd]
@@ -117,7 +117,7 @@ theorem tie_gc_auto_waste (cfg : Cfg) (st : St) (hnd : (st.live.map (·.id)).Nod
 (the tracks in the wasted store are expired, an invariant of the tracker: they were when they were moved and epochs only grow) -/
 theorem tie_gc_wasted (cfg : Cfg) (st : St) (hnd : (st.live.map (·.id)).Nodup)
     (hndw : (((collect cfg st).wasted).map (·.id)).Nodup) (hexp : ∀ t ∈ (collect cfg st).wasted, expired cfg st t = true) :
-    gc_wasted (findUsableM cfg) fetchTracksM addTrackM st st.live st.wasted =
+    gc_wasted (findUsableM cfg) fetchTracksM addTrackG st st.live st.wasted =
       some (((wastedOp cfg st).1.live, (wastedOp cfg st).1.wasted), (wastedOp cfg st).2) := by
   unfold gc_wasted
   rw [tie_gc_auto_waste cfg st hnd]
@@ -133,7 +133,7 @@ theorem tie_gc_wasted (cfg : Cfg) (st : St) (hnd : (st.live.map (·.id)).Nodup)
 
 /-- **`skip_epochs_for_scene` is the model's `skip`**: the scene's epoch advances by `n`, then the expired tracks are collected -/
 theorem tie_gc_skip (cfg : Cfg) (st : St) (scene n : Nat) (hnd : (st.live.map (·.id)).Nodup) :
-    gc_skip_epochs_for_scene (findUsableM cfg) fetchTracksM addTrackM (fun s sc k => setEpoch s sc (epochOf s sc + k)) st st.live st.wasted scene n =
+    gc_skip_epochs_for_scene (findUsableM cfg) fetchTracksM addTrackG (fun s sc k => setEpoch s sc (epochOf s sc + k)) st st.live st.wasted scene n =
       some (setEpoch st scene (epochOf st scene + n), (skip cfg st scene n).live, (skip cfg st scene n).wasted) := by
   unfold gc_skip_epochs_for_scene
   simp only []
